@@ -9,6 +9,9 @@ from . import spawner as SP
 def check(ctx: Ctx) -> None:
     CL.r_close_order(ctx, "R08.1")
     CL.r_gather_complete(ctx, "R08.2", ("gather_and_close", "flush"))
+    S.r_spawner_registry_who(ctx, "R08.4")
+    from .elemtrack import r_spawner_kept
+    r_spawner_kept(ctx, "R08.5")
     A.r_check_precedence(ctx, "R08.3")
     A.r_validate_first(ctx, "R09.1", ("apply", "_map", "start"))
     A.r_raise_inventory(ctx, "R09.3")
